@@ -198,6 +198,46 @@ pub fn multisig_lookalikes(max_keys: usize) -> Shard {
     Shard { name: format!("multisig-lookalikes-upto-{}-keys", max_keys), scripts: v }
 }
 
+/// Multisig shapes by key count: every count 0..=20 (the valid n = 1..16 with m in {1, n} among them) and counts around the
+/// widths of a byte-sized key counter (255, 256, 257, 256 + n, 512 + n): `OP_m <k keys> OP_n OP_CHECKMULTISIG` where n is the
+/// true count, the count modulo 256, or 16. Only k = n <= 16 is a multisig script.
+pub fn multisig_by_key_count() -> Shard {
+    let mut v = Vec::new();
+    let num = |n: usize| -> u8 { if n == 0 { 0x00 } else { 0x50 + n as u8 } };
+    let mut counts: Vec<usize> = (0..=20).collect();
+    counts.extend([100usize, 254, 255, 256, 257, 258, 271, 272, 273, 511, 512, 513, 528, 768, 1025]);
+    for k in counts {
+        for keylen in [1usize, 33] {
+            if keylen == 33 && k > 300 {
+                continue;
+            }
+            let mut ns: Vec<usize> = vec![16, 1];
+            if k <= 16 {
+                ns.push(k);
+            }
+            if k % 256 <= 16 {
+                ns.push(k % 256);
+            }
+            ns.sort();
+            ns.dedup();
+            for n in ns {
+                for m in [1usize, 16, n.max(1).min(16)] {
+                    let mut s = vec![num(m)];
+                    for i in 0..k {
+                        s.extend(push_minimal(&filler((i % 250) as u8 + 1, keylen)));
+                    }
+                    s.push(num(n));
+                    s.push(0xae);
+                    v.push(s);
+                }
+            }
+        }
+    }
+    v.sort();
+    v.dedup();
+    Shard { name: "multisig-by-key-count".into(), scripts: v }
+}
+
 pub fn token_alphabet() -> Vec<Vec<u8>> {
     let mut pd1 = vec![0x4c, 20];
     pd1.extend(filler(9, 20));
@@ -416,6 +456,40 @@ pub fn long_templates() -> Shard {
         }
     }
     Shard { name: "long-templates".into(), scripts: v }
+}
+
+/// History dependence: `n` DISTINCT standard scripts (P2PKH / P2SH / P2PK / P2WPKH / OP_RETURN, the counter in the hash,
+/// key or payload) meant to be evaluated one after the other by ONE thread, with the first 2000 of them evaluated again after
+/// every 50 000: the result for a script must not depend on what the thread has evaluated before (memo tables, ring
+/// caches, fingerprints that collide only among very many scripts).
+pub fn history_scripts(n: usize) -> Shard {
+    let mut v: Vec<Vec<u8>> = Vec::with_capacity(n + n / 25 + 2000);
+    let make = |i: usize| -> Vec<u8> {
+        let mut h = [0u8; 20];
+        h[..8].copy_from_slice(&(i as u64).wrapping_mul(0x9e37_79b9_7f4a_7c15).to_le_bytes());
+        h[12..20].copy_from_slice(&(i as u64).to_be_bytes());
+        match i % 5 {
+            0 => p2pkh(&h),
+            1 => p2sh(&h),
+            2 => {
+                let mut k = vec![0x02u8];
+                k.extend_from_slice(&h);
+                k.extend_from_slice(&h[..12]);
+                p2pk(&k)
+            }
+            3 => witness(0, &h),
+            _ => op_return(format!("order {:07}", i).as_bytes()),
+        }
+    };
+    for i in 0..n {
+        v.push(make(i));
+        if (i + 1) % 50_000 == 0 {
+            for j in 0..2000 {
+                v.push(make(j));
+            }
+        }
+    }
+    Shard { name: format!("history-{}-distinct-scripts-on-one-thread", n), scripts: v }
 }
 
 /// C14 length-extreme family.
